@@ -5,6 +5,7 @@ import e2rules
 
 def run(tier, seed, ev, jobs):
     rc = e2rules.run_rules("C13", tier, seed, ev, jobs)
+    rc = e1.combine(rc, e2rules.run_wrap("C13", tier, seed, ev, jobs))
     return e1.combine(rc, e1.run_e1("C13", tier, seed, ev, jobs))
 
 
